@@ -334,6 +334,11 @@ class Interp:
         if f in self.modular and f in self.contracts:
             yield from self.contracts[f].apply(self, st, args, kwargs)
             return
+        # functools.lru_cache wrappers are semantically transparent for the pure functions they wrap
+        if type(f).__name__ == '_lru_cache_wrapper' and hasattr(f, '__wrapped__'):
+            self.assumptions.add("functools.lru_cache is transparent (the wrapped function is pure)")
+            yield from self.call(st, VConst(f.__wrapped__), args, kwargs, node)
+            return
         # 3. python function with source
         if isinstance(f, types.FunctionType):
             fnode = SOURCES.node_of(f)
@@ -1869,6 +1874,12 @@ class Interp:
         """yields (st, VBool | Raise)"""
         if isinstance(a, VRef) or isinstance(b, VRef):
             yield from self.bm.ref_equals(self, st, a, b, node)
+            return
+        if isinstance(a, VTuple) and isinstance(b, VTuple):
+            if len(a.items) != len(b.items):
+                yield st, VBool(False)
+            else:
+                yield from self.bm._all_equal(self, st, a.items, b.items, node)
             return
         if isinstance(a, VSegs) or isinstance(b, VSegs):
             r = segs_eq(a, b)
